@@ -15,6 +15,7 @@ import numpy
 
 from mpv import arr, models, ref, trace, cmdgen
 
+ANCHORS = ['mpilot/program.py:Program.from_source', 'mpilot/program.py:Program.run', 'mpilot/commands.py:Command.metadata', 'mpilot/libraries/eems/basic.py:Sum.execute', 'mpilot/libraries/eems/fuzzy.py:FuzzyOr.execute', 'mpilot/libraries/eems/csv/io.py:EEMSRead.execute']   # repository functions the workload must enter (reported as anchors_reached / anchors_missed)
 LEVEL = "exploration"
 RULE = ("random well-typed EEMS models (3-18 commands over all built-in data commands, CSV tables of 2-14 rows with int and float "
         "columns and missing cells; a ledger forces every command into the sample) x {original, reversed, k random permutations, "
